@@ -133,6 +133,8 @@ FAM = {
         'Pc': ((), lambda: IndexOperator((..., PERM), in_structure=S(2, 3)), ''),
         # an ellipsis that stands for NO axis: the index array addresses axis -2 of a rank-2 leaf, len(indices) = 3
         'Pes': ((), lambda: IndexOperator((..., IDX3, slice(None)), in_structure=S(2, 3)), ''),
+        # packing along the leading axis of a leaf that has more axes than the mask
+        'Pk': ((), lambda: PackOperator(M2, S(2, 3)), ''),
         'E': (((3, 3),), lambda b: dense(b, S(2, 3), 'ij,kj->ki'), ''),
         'E2': (((2, 2),), lambda b: dense(b, S(2, 3), 'ij,j...->i...'), ''),
         'Tz': (((2, 2),), lambda h: SymmetricBandToeplitzOperator(h, S(2, 3), method='dense'), ''),
